@@ -287,7 +287,7 @@ def _run_phase(case, env, obj, out, dig):
                 if out.get('stop'):
                     break
                 continue
-            st, val, ticks = call(env, pa.pda_simulate_word, obj, w, budget=min(500_000 + 20 * ticks, max(30_000_000, 3 * ticks)))
+            st, val, ticks = call(env, pa.pda_simulate_word, obj, w, budget=min(500_000 + 20 * ticks, max(30_000_000, 8 * ticks)))
             if not record(st, val, ticks, 'pda_simulate_word', w):
                 if out.get('stop'):
                     break
